@@ -131,12 +131,29 @@ class V1Parser:
             if networkProtocol == cls.TCP4_PROTO:
                 return _info.ProxyInfo(
                     originalLine,
-                    address.IPv4Address("TCP", sourceAddr.decode(), int(sourcePort)),
-                    address.IPv4Address("TCP", destAddr.decode(), int(destPort)),
+                    address.IPv4Address(
+                        "TCP", sourceAddr.decode(), cls._parsePort(sourcePort)
+                    ),
+                    address.IPv4Address(
+                        "TCP", destAddr.decode(), cls._parsePort(destPort)
+                    ),
                 )
 
             return _info.ProxyInfo(
                 originalLine,
-                address.IPv6Address("TCP", sourceAddr.decode(), int(sourcePort)),
-                address.IPv6Address("TCP", destAddr.decode(), int(destPort)),
+                address.IPv6Address(
+                    "TCP", sourceAddr.decode(), cls._parsePort(sourcePort)
+                ),
+                address.IPv6Address("TCP", destAddr.decode(), cls._parsePort(destPort)),
             )
+
+    @staticmethod
+    def _parsePort(port: bytes) -> int:
+        """
+        Parse a port field: a decimal integer in the range 0 to 65535.
+
+        @raises ValueError: If the field is anything else.
+        """
+        if not port.isdigit() or int(port) > 65535:
+            raise ValueError("invalid port")
+        return int(port)
